@@ -492,15 +492,22 @@ func (w *World) wakeWaiters(on any) {
 //
 //go:norace
 func Yield(site int) {
+	SiteHits[site]++ // reach is measured in every world, also those without goroutine tasks
 	w := active
 	if w == nil {
+		if yieldBudgetOn {
+			yieldBudget--
+			if yieldBudget < 0 {
+				yieldBudgetOn = false
+				panic(BudgetExceeded{})
+			}
+		}
 		return
 	}
 	t := w.cur
 	if t == nil || t.noYield > 0 {
 		return
 	}
-	SiteHits[site]++
 	w.point(t, KStmt, site)
 }
 
@@ -689,4 +696,46 @@ func ReadSiteHits() (hit, total int) {
 		}
 	}
 	return hit, NumSites
+}
+
+// ResetSiteHits forgets what ran so far (the harness calls it after warm-up).
+//
+//go:norace
+func ResetSiteHits() {
+	for i := range SiteHits {
+		SiteHits[i] = 0
+	}
+}
+
+// HitSites lists the names (file:line) of the yield sites executed so far.
+//
+//go:norace
+func HitSites() []string {
+	var s []string
+	for i := 0; i < NumSites; i++ {
+		if SiteHits[i] > 0 {
+			s = append(s, SiteNames[i])
+		}
+	}
+	return s
+}
+
+// BudgetExceeded is the panic value thrown when code running outside a task
+// world executes more statements than the budget allows (non-termination).
+type BudgetExceeded struct{}
+
+func (BudgetExceeded) Error() string { return "simrt: statement budget exceeded (non-termination)" }
+
+var (
+	yieldBudget   int64
+	yieldBudgetOn bool
+)
+
+// SetYieldBudget arms (n > 0) or disarms (n <= 0) the statement budget for code
+// that runs outside a task world.
+//
+//go:norace
+func SetYieldBudget(n int64) {
+	yieldBudget = n
+	yieldBudgetOn = n > 0
 }
